@@ -69,10 +69,66 @@ def closure_axioms(formulas):
                 out.append(a)
     if need_ground:
         out.extend(ground_type_facts())
+    out.extend(pyeq_transfer_axioms(formulas))
     out.extend(global_row_axioms(formulas))
     from .buffer_spec import buffer_axioms
     out.extend(buffer_axioms(formulas))
     return out
+
+
+_PYEQ_CACHE = {}
+TRANSFER = {"list_len", "list_get", "list_index", "list_contains", "list_idx_ok", "dict_has", "dict_get", "dict_len", "sub_of"}
+
+
+def _pyeq_pairs_and_reads(f):
+    k = f.get_id()
+    hit = _PYEQ_CACHE.get(k)
+    if hit is None:
+        pairs, reads = [], []
+        for e in smt.subterms([f]):
+            if not z3.is_app(e):
+                continue
+            if e.decl().kind() == z3.Z3_OP_EQ:
+                a, b = e.children()
+                if z3.is_app(a) and z3.is_app(b) and a.decl().name() == "canon" and b.decl().name() == "canon":
+                    pairs.append((a.children()[0], b.children()[0]))
+                elif a.sort() == Val and z3.is_app(a) and z3.is_app(b) and a.num_args() > 0 and b.num_args() > 0:
+                    pairs.append((a, b))      # (instances of valid axioms: sound whatever the equation's context)
+            elif e.decl().name() in TRANSFER and e.num_args() >= 1 and all(x.sort() == Val for x in e.children()):
+                reads.append(e)
+        hit = (f, pairs, reads)
+        _PYEQ_CACHE[k] = hit
+    return hit[1], hit[2]
+
+
+def pyeq_transfer_axioms(formulas):
+    """Python == is a congruence for the READ symbols of dict / list (length, element, membership, index): when the
+    formulas state  a == b  (canon(a) == canon(b)) and read some f(a, ...), the homomorphism instance for f(b, ...)
+    is added as well (one step; the instance for f(a, ...) itself comes from the per-term rule)."""
+    pairs, reads = [], []
+    for f in formulas:
+        if z3.is_expr(f):
+            p, r = _pyeq_pairs_and_reads(f)
+            pairs.extend(p)
+            reads.extend(r)
+    if not pairs or not reads:
+        return []
+    by_first = {}
+    for e in reads:
+        by_first.setdefault(e.arg(0).get_id(), []).append(e)
+    ax, seen = [], set()
+    for (a, b) in pairs:
+        for (x, y) in ((a, b), (b, a)):
+            for e in by_first.get(x.get_id(), ()):
+                args = [y] + e.children()[1:]
+                t = e.decl()(*args)
+                if t.get_id() in seen:
+                    continue
+                seen.add(t.get_id())
+                fc = smt.F(e.decl().name() + "#c", *([Val] * len(args)), e.sort())
+                cargs = [smt.canon(u) for u in args]
+                ax.append((smt.canon(t) == fc(*cargs)) if t.sort() == Val else (t == fc(*cargs)))
+    return ax
 
 
 _LIST_CACHE = {}
@@ -242,6 +298,12 @@ def global_list_axioms(formulas, alias):
         seen.add(e.get_id())
         steps += 1
         c = e.arg(0)
+        # Python == is a congruence for the read symbols: the homomorphism instance of every read term met here
+        # (terms introduced by the axioms themselves are not seen by the per-formula rule)
+        if e.decl().name() in ("list_len", "list_idx_ok") and all(x.sort() == Val for x in e.children()):
+            fc = smt.F(e.decl().name() + "#c", *([Val] * e.num_args()), e.sort())
+            hom = fc(*[smt.canon(u) for u in e.children()])
+            ax.append((smt.canon(e) == hom) if e.sort() == Val else (e == hom))
         cs = [c]
         cn = _norm_select(c)
         if not cn.eq(c):
@@ -738,7 +800,7 @@ ABC_EDGES = [("Mapping", "Collection"), ("Sequence", "Collection"), ("MutableMap
              ("bool", "int")]
 
 PREDS = {"dict_has", "list_idx_ok", "list_set_ok", "list_del_ok", "list_contains", "list_pop_ok",
-         "list_lt", "list_le", "list_gt", "list_ge", "dict_len", "list_len", "list_set_exc"}
+         "list_lt", "list_le", "list_gt", "list_ge", "dict_len", "list_len", "list_set_exc", "list_index"}
 
 BUILTIN_TYPES = {
     # concrete built-in type -> abstract / base types it is an instance of  [E-ABC]
